@@ -1211,7 +1211,15 @@ func (p *pinner) Update(ctx context.Context, from, to cid.Cid, unpin bool) error
 		return err
 	}
 
-	_, err = p.addPin(ctx, to, ipfspinner.Recursive, pin.Name)
+	toID, err := p.addPin(ctx, to, ipfspinner.Recursive, pin.Name)
+	if err != nil {
+		return err
+	}
+
+	// As in Pin, the new recursive pin replaces a direct pin of the same CID.
+	// Left in place it would be hidden by the recursive pin and come back as
+	// soon as that one is removed by a later Update.
+	_, err = p.removePinsForCidExcept(ctx, to, ipfspinner.Any, toID)
 	if err != nil {
 		return err
 	}
